@@ -66,6 +66,10 @@ def one_edit_ball(s, ver):
             out.append(s.replace(ch, e))
     for d in gen.DECORATIONS:                                         # real-world decorations around the whole vector
         out.append(d % s)
+    fs0 = s.split("/")
+    for k in (161, 1200):                                             # the same near-misses, but LONG
+        out.extend([s + "/" * k, "/" * k + s, s.replace("/", "/" * k, 1), s + " " * k, s + ("/" + fs0[-1]) * (k // 4), s + "A" * k,
+                    "/".join(fs0[:-1] + [fs0[-1] + fs0[-1][-1] * k]), "/".join(fs0 + ["ZZ:Q"] * (k // 5))])
     conf = gen.confusables()
     for i, ch in enumerate(s):                                        # every Unicode look-alike of every character
         for c in conf.get(ch, ())[:10]:
